@@ -2,6 +2,7 @@
 package c18
 
 import (
+	"bytes"
 	"encoding/json"
 	"errors"
 	"fmt"
@@ -32,17 +33,17 @@ func TestMain(m *testing.M) { hx.Main(m, "C18") }
 
 // module: uniform view of one handler + parser + rule manager.
 type module struct {
-	name     string
-	handler  func() datasource.PropertyHandler
-	parse    func([]byte) (interface{}, error)
-	gen      func(t *rapid.T) any                // a rule object (valid or invalid), never nil
-	encode   func(list []any) []byte             // wire format; nil elements become JSON null
-	key      func(any) string                    // modulo ID
-	valid    func(any) bool                      // module's validity check and supported
-	current  func() []string                     // sorted keys of the rules in force (module getters)
-	decoded  func(interface{}) []any             // parser result -> rule objects (nil elements kept)
-	fromJSON func([]byte) ([]any, error)         // independent encoding/json decode of the wire format
-	wrongTyped string                            // a payload whose field types are wrong
+	name       string
+	handler    func() datasource.PropertyHandler
+	parse      func([]byte) (interface{}, error)
+	gen        func(t *rapid.T) any        // a rule object (valid or invalid), never nil
+	encode     func(list []any) []byte     // wire format; nil elements become JSON null
+	key        func(any) string            // modulo ID
+	valid      func(any) bool              // module's validity check and supported
+	current    func() []string             // sorted keys of the rules in force (module getters)
+	decoded    func(interface{}) []any     // parser result -> rule objects (nil elements kept)
+	fromJSON   func([]byte) ([]any, error) // independent encoding/json decode of the wire format
+	wrongTyped string                      // a payload whose field types are wrong
 }
 
 func sortedKeys(m *module, rs []any) []string {
@@ -68,7 +69,9 @@ func marshalList(list []any) []byte {
 }
 
 func flowMod() *module {
-	m := &module{name: "flow", handler: func() datasource.PropertyHandler { return datasource.NewFlowRulesHandler(datasource.FlowRuleJsonArrayParser) },
+	m := &module{name: "flow", handler: func() datasource.PropertyHandler {
+		return datasource.NewFlowRulesHandler(datasource.FlowRuleJsonArrayParser)
+	},
 		parse: datasource.FlowRuleJsonArrayParser,
 		gen: func(t *rapid.T) any {
 			r := &flow.Rule{ID: fmt.Sprint(rapid.IntRange(0, 9).Draw(t, "id")), Resource: rapid.SampledFrom([]string{"a", "b", "c", ""}).Draw(t, "res"),
@@ -124,7 +127,9 @@ func flowMod() *module {
 }
 
 func isolationMod() *module {
-	return &module{name: "isolation", handler: func() datasource.PropertyHandler { return datasource.NewIsolationRulesHandler(datasource.IsolationRuleJsonArrayParser) },
+	return &module{name: "isolation", handler: func() datasource.PropertyHandler {
+		return datasource.NewIsolationRulesHandler(datasource.IsolationRuleJsonArrayParser)
+	},
 		parse: datasource.IsolationRuleJsonArrayParser,
 		gen: func(t *rapid.T) any {
 			return &isolation.Rule{ID: fmt.Sprint(rapid.IntRange(0, 9).Draw(t, "id")), Resource: rapid.SampledFrom([]string{"a", "b", ""}).Draw(t, "res"),
@@ -170,7 +175,9 @@ func isolationMod() *module {
 }
 
 func systemMod() *module {
-	return &module{name: "system", handler: func() datasource.PropertyHandler { return datasource.NewSystemRulesHandler(datasource.SystemRuleJsonArrayParser) },
+	return &module{name: "system", handler: func() datasource.PropertyHandler {
+		return datasource.NewSystemRulesHandler(datasource.SystemRuleJsonArrayParser)
+	},
 		parse: datasource.SystemRuleJsonArrayParser,
 		gen: func(t *rapid.T) any {
 			return &system.Rule{ID: fmt.Sprint(rapid.IntRange(0, 9).Draw(t, "id")), MetricType: system.MetricType(rapid.IntRange(0, 5).Draw(t, "metric")),
@@ -450,8 +457,9 @@ func runHandler(t *testing.T, name string, n hx.N) {
 			keys    []string
 		}
 		var okHistory []okPayload // every successfully delivered rule list, for re-submission after clears and errors
-		var model []string // sorted keys in force
+		var model []string        // sorted keys in force
 		sawOK, sawBad, sawLater, sawNull := false, false, false, false
+		sawSparseAfterFull := false
 		nd := rapid.IntRange(1, 8).Draw(t, "deliveries")
 		for i := 0; i < nd; i++ {
 			kind := rapid.IntRange(0, 6).Draw(t, "kind")
@@ -478,6 +486,17 @@ func runHandler(t *testing.T, name string, n hx.N) {
 					list = []any{}
 				}
 				payload := m.encode(list)
+				sparse := false
+				if rapid.IntRange(0, 2).Draw(t, "sparse") == 0 {
+					// hand-written style: arbitrary keys left out (an omitted key means the zero value). What the payload
+					// describes is then given by an independent encoding/json decode into fresh structures.
+					if sp, n := sparsify(t, payload); n > 0 {
+						if l2, err := m.fromJSON(sp); err == nil && len(l2) == len(list) {
+							payload, list, sparse = sp, l2, true
+						}
+					}
+				}
+				sawSparseAfterFull = sawSparseAfterFull || (sparse && sawOK)
 				// round trip: the parser yields exactly the described rules
 				got, perr := m.parse(payload)
 				if perr != nil {
@@ -599,6 +618,7 @@ func runHandler(t *testing.T, name string, n hx.N) {
 		}
 		clearAll()
 		c.ClassIf(sawNull, "null-element")
+		c.ClassIf(sawSparseAfterFull, "keys-omitted-after-an-earlier-list")
 		if (sawOK && sawBad && sawLater) || sawNull {
 			c.NonTrivial()
 		}
@@ -606,6 +626,39 @@ func runHandler(t *testing.T, name string, n hx.N) {
 }
 
 // normalise makes decoded and described rules comparable (nil vs empty specific-item maps).
+// sparsify removes a drawn subset of the keys of every object of a JSON array of objects; n is the number removed.
+func sparsify(t *rapid.T, payload []byte) ([]byte, int) {
+	dec := json.NewDecoder(bytes.NewReader(payload))
+	dec.UseNumber()
+	var arr []any
+	if err := dec.Decode(&arr); err != nil {
+		return payload, 0
+	}
+	n := 0
+	for _, el := range arr {
+		obj, ok := el.(map[string]any)
+		if !ok {
+			continue
+		}
+		keys := make([]string, 0, len(obj))
+		for k := range obj {
+			keys = append(keys, k)
+		}
+		sort.Strings(keys)
+		for _, k := range keys {
+			if rapid.IntRange(0, 2).Draw(t, "omit") == 0 {
+				delete(obj, k)
+				n++
+			}
+		}
+	}
+	out, err := json.Marshal(arr)
+	if err != nil {
+		return payload, 0
+	}
+	return out, n
+}
+
 func normalise(r any) any {
 	if h, ok := r.(*hotspot.Rule); ok {
 		x := *h
@@ -645,9 +698,11 @@ func arm(m *module) []string {
 	return out
 }
 
-func TestFlowHandler(t *testing.T)      { runHandler(t, "flow", hx.N{Quick: 4000, Thorough: 30000}) }
-func TestIsolationHandler(t *testing.T) { runHandler(t, "isolation", hx.N{Quick: 4000, Thorough: 30000}) }
-func TestSystemHandler(t *testing.T)    { runHandler(t, "system", hx.N{Quick: 4000, Thorough: 30000}) }
+func TestFlowHandler(t *testing.T) { runHandler(t, "flow", hx.N{Quick: 4000, Thorough: 30000}) }
+func TestIsolationHandler(t *testing.T) {
+	runHandler(t, "isolation", hx.N{Quick: 4000, Thorough: 30000})
+}
+func TestSystemHandler(t *testing.T) { runHandler(t, "system", hx.N{Quick: 4000, Thorough: 30000}) }
 func TestCircuitBreakerHandler(t *testing.T) {
 	runHandler(t, "circuitbreaker", hx.N{Quick: 4000, Thorough: 30000})
 }
